@@ -197,9 +197,8 @@ theorem pIsotope_tok (t : IsoTok) (h : t.ok = true) (rest : List Char) :
   simp only [IsoTok.text, List.cons_append, List.append_assoc, List.nil_append, pIsotope, hs1, hw, hs2]
 
 theorem pIon_tok (t : IonTok) (h : t.ok = true) (rest : List Char) :
-    pIon (t.text ++ rest) =
-      ((if t.neg then -(((if t.mag.isEmpty then 1 else natOf t.mag : Nat)) : Int)
-        else (((if t.mag.isEmpty then 1 else natOf t.mag : Nat)) : Int)), rest) := by
+    pIon (t.text ++ rest) = (t.charge, rest) := by
+  unfold IonTok.charge
   simp only [IonTok.ok, Bool.and_eq_true, Bool.or_eq_true, List.isEmpty_iff] at h
   have h1 := allWs_iff.1 h.1.1
   have h2 := allWs_iff.1 h.2
@@ -376,12 +375,12 @@ theorem pElement_elem (T : Table) (e : Elem) (he : e.ok = true) (b X : List Char
       | none =>
         have : R1 = R2 := by simp [R1, hi, optText]
         rw [this]
-        simp only [Elem.isoNum, hi]
+        simp only [Elem.isoNum, isoNumOpt, hi]
         exact pIsotope_none R2 (fun c hc => (hR2 c hc).2)
       | some t =>
         have : R1 = t.text ++ R2 := by simp [R1, hi, optText]
         rw [this]
-        simp only [Elem.isoNum, hi]
+        simp only [Elem.isoNum, isoNumOpt, hi]
         rw [hi] at hiso
         exact pIsotope_tok t hiso R2
     have hQ : pIon R2 = (e.charge, R3) := by
@@ -389,12 +388,12 @@ theorem pElement_elem (T : Table) (e : Elem) (he : e.ok = true) (b X : List Char
       | none =>
         have : R2 = R3 := by simp [R2, hi, optText]
         rw [this]
-        simp only [Elem.charge, hi]
+        simp only [Elem.charge, chargeOpt, hi]
         exact pIon_none R3 (fun c hc => (hR3 c hc).2.2)
       | some t =>
         have : R2 = t.text ++ R3 := by simp [R2, hi, optText]
         rw [this]
-        simp only [Elem.charge, hi]
+        simp only [Elem.charge, chargeOpt, hi]
         rw [hi] at hion
         exact pIon_tok t hion R3
     have hC : pCount R3 = .ok (e.cnt.val, X) := pCount_tok e.cnt hcnt X hX.noNum
